@@ -230,6 +230,25 @@ func c17Check(c *core.Ctx, s histScenario) {
 				}
 			}
 			if in.Partial() && len(rec.DelHashes) > 0 {
+				// a caller that applies first and shows the proof only when refused: the partial forest
+				// does not hold every deleted leaf yet, so Modify must refuse - and a refused call must
+				// leave its arguments alone like any other (added after seeded change C17g)
+				unremembered := false
+				for _, h := range rec.DelHashes {
+					if !in.Rem[h] {
+						unremembered = true
+					}
+				}
+				if unremembered {
+					if err := in.U.Modify(gL, gDel, proof); err == nil {
+						c.Violate(in.Cfg.Kind+".Modify", "setup:accepted-deletion-of-unremembered-leaf", "", fmt.Sprintf("block %d (dels %v)", bi, b.Dels))
+						return
+					}
+					c.Count("refused_modify_calls_before_the_proof_was_shown", 1)
+					if !after(in.Cfg.Kind + ".Modify(refused)") {
+						return
+					}
+				}
 				if !setup(in.Cfg.Kind+".Verify(remember)", in.MP.Verify(gDel, proof, true)) || !after(in.Cfg.Kind+".Verify(remember)") {
 					return
 				}
